@@ -217,6 +217,7 @@ Proof.
   - cbn [gsort_collect]. split; [apply perm_nil|]. intros d [].
   - cbn [gsort_collect]. unfold gsort_type_descs.
     destruct (forallb (fun d => validate (sd_fields d)) (collect ty fs)); [|exact I].
+    destruct (forms_ok (collect ty fs)); [|exact I].
     specialize (IH (S n) (S n')).
     destruct (gsort_collect pis (S n) r) as [l|], (gsort_collect pis' (S n') r) as [l'|];
       try exact IH.
@@ -1125,3 +1126,33 @@ Proof.
 Qed.
 Lemma sort_ok_method : sort_ok method_lt (isort method_lt).
 Proof. apply isort_sort_ok, method_lt_swo. Qed.
+
+(* ------------------------------------------------------------------ unusedName *)
+Lemma existsb_perm : forall A (f : A -> bool) l l', Permutation l l' -> existsb f l = existsb f l'.
+Proof.
+  intros A f l l' P. induction P; cbn [existsb].
+  - reflexivity.
+  - rewrite IHP. reflexivity.
+  - destruct (f x), (f y); reflexivity.
+  - rewrite IHP1. exact IHP2.
+Qed.
+
+Theorem name_bound_indep : forall pi pi' scope cand h, iter_ok pi -> iter_ok pi' ->
+  name_bound pi scope cand h = name_bound pi' scope cand h.
+Proof.
+  intros pi pi' scope cand h Hp Hp'. unfold name_bound.
+  rewrite (existsb_perm _ _ _ _ (Hp (ih_imports h))).
+  rewrite (existsb_perm _ _ _ _ (Hp' (ih_imports h))). reflexivity.
+Qed.
+
+Theorem unused_name_indep : forall itoa pis pis' scope name h fuel,
+  (forall n, iter_ok (pis n)) -> (forall n, iter_ok (pis' n)) ->
+  unused_name itoa pis scope name h fuel = unused_name itoa pis' scope name h fuel.
+Proof.
+  intros itoa pis pis' scope name h fuel Hp Hp'. unfold unused_name.
+  rewrite (name_bound_indep (pis 1) (pis' 1) scope name h (Hp 1) (Hp' 1)).
+  destruct (name_bound (pis' 1) scope name h); [|reflexivity].
+  generalize 2. induction fuel as [|f IH]; intros n; cbn [unused_from]; [reflexivity|].
+  rewrite (name_bound_indep (pis n) (pis' n) scope _ h (Hp n) (Hp' n)).
+  destruct (name_bound (pis' n) scope _ h); [apply IH|reflexivity].
+Qed.
